@@ -251,6 +251,7 @@ fn eval_inner(target: &str, input: &str) -> Option<String> {
         }
         "default_ns" => c10_default_ns_witness(),
         "fixed_doc" => c20_fixed_doc(input),
+        "html_tree" => htmltree::check(input),
         "nav_axes" => navaxes::check(input),
         "id_tables" => c08_id_tables(input),
         "node_map" => c11_node_map(input),
@@ -317,6 +318,7 @@ fn inputs(target: &str, large: bool) -> Vec<String> {
             v
         }
         "ns_layout" => bounded::ns_layouts(),
+        "html_tree" => htmltree::inputs(large),
         "nav_axes" => navaxes::inputs(),
         "id_tables" => { let mut v = Vec::new(); for n in [1usize, 2, 7, 20, 41, 64, 150] { for stride in [1usize, 3, 7] { for via in ["api", "parse"] { v.push(format!("{} {} {}", n, stride, via)); } } } if large { v.push("700 11 api".into()); v.push("700 13 parse".into()); } v }
         "node_map" => {
@@ -1701,6 +1703,75 @@ mod navaxes {
         let mut v = Vec::new();
         for (i, s) in specs().iter().enumerate() { let mut xot = Xot::new(); let n = build(s, &mut xot).map(|t| t.kind.len()).unwrap_or(0); for k in 0..n { v.push(format!("{} {}", i, k)); } }
         v
+    }
+}
+
+// (C19) HTML5 serialisation of small trees: no panic, doctype, element rules, escaping
+#[allow(dead_code)]
+mod htmltree {
+    use xot::Xot;
+    /// input: "<root kind>|<child kinds>|<indent>": kinds: p P b(r) B(R) i(mg) s(cript) S(TYLE) x(unknown) m(athml) v(svg) f(oreign)
+    /// t (text with < and &) c(omment) q (PI) Q (PI with '>'); root kind may also be D (document with the children directly),
+    /// T (a detached text node), F (fragment: children directly under a document node)
+    pub fn inputs(large: bool) -> Vec<String> {
+        let kids = ['p', 'P', 'b', 'B', 'i', 's', 'S', 'x', 'm', 'v', 'f', 't', 'c', 'q', 'Q'];
+        let mut seqs: Vec<String> = vec![String::new()];
+        let mut frontier = seqs.clone();
+        for _ in 0..(if large { 3 } else { 2 }) { let mut next = Vec::new(); for s in &frontier { for k in kids { next.push(format!("{}{}", s, k)); } } seqs.extend(next.iter().cloned()); frontier = next; }
+        let mut v = Vec::new();
+        for r in ['p', 'P', 's', 'x', 'm', 'v', 'f', 'D', 'F'] { for s in &seqs { for ind in ["0", "1"] { v.push(format!("{}|{}|{}", r, s, ind)); } } }
+        v.push("T||0".into()); v.push("T||1".into());
+        v
+    }
+    const VOID: [&str; 2] = ["br", "img"];
+    fn mk(xot: &mut Xot, k: char) -> Option<xot::Node> {
+        let el = |xot: &mut Xot, local: &str, ns: &str| { let n = xot.add_namespace(ns); let nm = xot.add_name_ns(local, n); xot.new_element(nm) };
+        Some(match k {
+            'p' => el(xot, "p", ""), 'P' => el(xot, "P", ""), 'b' => el(xot, "br", ""), 'B' => el(xot, "BR", ""), 'i' => el(xot, "img", ""),
+            's' => el(xot, "script", ""), 'S' => el(xot, "STYLE", ""), 'x' => el(xot, "blink", ""),
+            'm' => el(xot, "math", "http://www.w3.org/1998/Math/MathML"), 'v' => el(xot, "svg", "http://www.w3.org/2000/svg"),
+            'f' => { let e = el(xot, "frob", "urn:foreign"); let p = xot.add_prefix("f"); let u = xot.add_namespace("urn:foreign"); xot.namespaces_mut(e).insert(p, u); e }
+            't' => xot.new_text("a<b&c"), 'c' => xot.new_comment("k"),
+            'q' => { let t = xot.add_name("pi"); xot.new_processing_instruction(t, Some("d")) }
+            'Q' => { let t = xot.add_name("pi"); xot.new_processing_instruction(t, Some("a>b")) }
+            _ => return None })
+    }
+    pub fn check(input: &str) -> Option<String> {
+        let f: Vec<&str> = input.split('|').collect();
+        if f.len() != 3 { return None; }
+        let r = std::panic::catch_unwind(|| {
+            let mut xot = Xot::new();
+            xot.set_text_consolidation(false);
+            let rk = f[0].chars().next()?;
+            let root = match rk { 'D' | 'F' => xot.new_document(), 'T' => xot.new_text("a<b&c"), k => mk(&mut xot, k)? };
+            let mut has_bad_pi = false;
+            let mut text_parents: Vec<char> = Vec::new();
+            for k in f[1].chars() {
+                let n = mk(&mut xot, k)?;
+                if xot.append(root, n).is_err() { return None; }
+                if k == 'Q' { has_bad_pi = true; }
+                if k == 't' { text_parents.push(rk); }
+            }
+            let params = xot::output::html5::Parameters { indentation: if f[2] == "1" { Some(Default::default()) } else { None }, ..Default::default() };
+            let out = xot.html5().serialize_string(params, root);
+            Some((out.map_err(|e| format!("{:?}", e)), has_bad_pi, text_parents, rk))
+        });
+        let (out, has_bad_pi, text_parents, rk) = match r { Err(_) => return Some(format!("HTML5 serialisation of {} panics", input)), Ok(None) => return None, Ok(Some(x)) => x };
+        let s = match out { Err(e) => { return if has_bad_pi { None } else { Some(format!("{}: refused although nothing forbids it: {}", input, e)) } } Ok(s) => s };
+        if has_bad_pi { return Some(format!("{}: a processing instruction containing '>' was emitted: {:?}", input, s)); }
+        if !s.starts_with("<!DOCTYPE html>") { return Some(format!("{}: output does not start with the HTML doctype: {:?}", input, s)); }
+        let low = s.to_ascii_lowercase();
+        for v in VOID { if low.contains(&format!("</{}>", v)) || low.contains(&format!("<{}/>", v)) || low.contains(&format!("<{} />", v)) { return Some(format!("{}: void element {} written with an end tag or self-closed: {:?}", input, v, s)); } }
+        for e in ["p", "script", "style", "blink"] { if low.contains(&format!("<{}/>", e)) || low.contains(&format!("<{} />", e)) { return Some(format!("{}: HTML element {} self-closed: {:?}", input, e, s)); }
+            if low.matches(&format!("<{}>", e)).count() + low.matches(&format!("<{} ", e)).count() != low.matches(&format!("</{}>", e)).count() { return Some(format!("{}: HTML element {} without explicit end tag: {:?}", input, e, s)); } }
+        if low.contains("<math") && !low.contains("<math xmlns=\"http://www.w3.org/1998/math/mathml\"") { return Some(format!("{}: MathML element not written unprefixed under a default declaration: {:?}", input, s)); }
+        if low.contains("<svg") && !low.contains("<svg xmlns=\"http://www.w3.org/2000/svg\"") { return Some(format!("{}: SVG element not written unprefixed under a default declaration: {:?}", input, s)); }
+        if low.contains(":math") || low.contains(":svg") { return Some(format!("{}: MathML / SVG element written with a prefix: {:?}", input, s)); }
+        // '<' and '&' from text raw only inside script / style
+        let raw_expected = text_parents.iter().filter(|p| **p == 's').count();
+        if s.matches("a<b&c").count() != raw_expected { return Some(format!("{}: raw '<' / '&' from text {} time(s), expected {} (script / style only): {:?}", input, s.matches("a<b&c").count(), raw_expected, s)); }
+        let _ = rk;
+        None
     }
 }
 
